@@ -172,7 +172,7 @@ PROPS = {
         "tie": [tie3(r"int_process_(apply_gate|gate|if|node|nodes|node_apply)_eq|int_(ast_changes|add_ast|new)_eq|processNode_inv|processApply_macros|foldlM_process|regsOf_eq|argsOf_eq|macro_process(_nested)?_eq|macro_argument_name_eq|macro_new_eq|gate_arm_\w+_eq", r"UNSUPPORTED (mod\.rs: qasm/int/mod\.rs::(process_(apply_gate|gate|if|node|nodes)|ast_changes|add_ast|new):|macros\.rs|gates\.rs)"), tiec(r"sym_\w+"), tie2(r"extop_(push|append)_eq|sym_(finish|step|reset|new|get_class|get_probabilities)_eq|finish_as_foldlM", r"UNSUPPORTED (ext_op\.rs|sym\.rs)", creg=True), tie3(r"int_(append|prepend)_int_eq", r"UNSUPPORTED mod\.rs: qasm/int/mod\.rs::(append_int|prepend_int):")],
         "suites": [suite("c17", dict(count=300), dict(count=10000))],
         "mismatch_tags": INT_STRUCT,
-        "spec_tags": [r"isame", r"iexpect\.asts"],
+        "spec_tags": [r"isame", r"iexpect\.asts", r"c10\.kinds"],
         "trusted_base": [TB_CANON] + [TB_TIE2] + TB_COMMON,
         "assumptions": ASSUME_COMMON,
         "level_text": "Lean theorems (Props/C17.lean, 15): processing a concatenation is processing the parts in turn; adding chunks one by one (add_ast, or ast_changes + append_int: the same function in the model after the repairs) is accepted iff the whole text is, fails with the same error, and yields an interpreter with equal registers, gate definitions, measurement mode and an observationally equivalent block queue (equal runs for every outcome stream); the record of accepted chunks lists each chunk once, in order; running is invariant under that equivalence; reset after a run restores exactly Sym::new, so re-running reproduces the run from |0...0>. Tied to the code by the c17 suite: every program is fed whole, chunk by chunk through add_ast, and through ast_changes + append_int (1..5 chunks, with and without xor mode), executed with the same seed and compared on final state and classical register; chunk counts checked; reset+finish and init compared with the first run.",
